@@ -171,6 +171,19 @@ def gated_call(P, cls, m: FuncInfo, c: ast.Call, key: ast.expr, depth: int):
     return key_gated_here(m, c, key) if not (key_gated_here(m, c, key) or "param:").startswith("param:") else gated(P, cls, m, c, key, depth)
 
 
+def enable_recomputes_requested(P: Program, R: Report, rule: str) -> None:
+    """enable_features(keys, recompute=True) hands exactly the requested keys to compute(), under no other condition than
+    the recompute flag: a key that was registered before (loaded values, recompute=False earlier) is computed too."""
+    en = P.class_named("Tracks").methods["enable_features"]
+    comps = [c for c in ast.walk(en.node) if isinstance(c, ast.Call) and call_name(c) == "compute"]
+    R.check(len(comps) == 1 and comps and norm(comps[0].args[0]) == en.params[1], rule, en, comps[0] if comps else en.node,
+            "enable_features recomputes exactly the requested keys",
+            f"compute is called with `{norm(comps[0].args[0]) if comps and comps[0].args else '?'}`: keys that are already registered are not recomputed", via="dataflow")
+    for c in comps:
+        guards = [norm(n.test) for fld, n in enclosing(en, c) if isinstance(n, ast.If)]
+        R.check(guards == ["recompute"], rule, en, c, "recomputation depends only on the recompute flag", f"guards: {guards}", via="syntax")
+
+
 def run(P: Program, R: Report, tier: str) -> None:
     R.explanation = (
         "Provenance of the protected-attribute set; validate-then-change typestate over the feature "
@@ -226,6 +239,28 @@ def run(P: Program, R: Report, tier: str) -> None:
             R.check(bool(kerr), "R10.2", f, f.node, f"{f.short} rejects unknown keys with KeyError (on some path, possibly in a helper)", "no KeyError raise reachable", via="typestate")
             srcs = " ".join(norm(g.node) for g in [f] + [m for m in reg.methods.values() if any(isinstance(c, ast.Call) and call_name(c) == m.name for c in ast.walk(f.node))])
             R.check(".all_features" in srcs, "R10.2", f, f.node, f"{f.short} validates against all_features (everything that can be managed)", "", via="provenance")
+    # ---- R10.10 no implicit refusal half-way: removing a requested key from a registry / dictionary cannot raise for a key that
+    # is known but not currently listed (disable of an available, not enabled feature; a repeated or duplicated key)
+    from .util import guards_of as _gof
+
+    for f in fns:
+        loopkeys = {lp.target.id for lp in ast.walk(f.node) if isinstance(lp, ast.For) and isinstance(lp.target, ast.Name)}
+        for st in ast.walk(f.node):
+            site = coll = key = None
+            if isinstance(st, ast.Delete) and len(st.targets) == 1 and isinstance(st.targets[0], ast.Subscript):
+                site, coll, key = st, norm(st.targets[0].value), norm(st.targets[0].slice)
+            elif isinstance(st, ast.Expr) and isinstance(st.value, ast.Call) and isinstance(st.value.func, ast.Attribute) and st.value.func.attr in ("pop", "remove") and len(st.value.args) == 1 and not st.value.keywords:
+                site, coll, key = st, norm(st.value.func.value), norm(st.value.args[0])
+            if site is None or key not in loopkeys:
+                continue
+            gs = [g.replace(" ", "") for g in _gof(f, site)]
+            label = f"{f.short}: dropping `{key}` from `{coll}` cannot raise for a key that is not listed"
+            if f"{key}in{coll}".replace(" ", "") in gs:
+                R.ok("R10.10", f, site, label, "guarded by a membership test", via="dominating-guard")
+            else:
+                R.fail("R10.10", f, site, label, f"`{norm(site)[:60]}` raises KeyError / ValueError for a requested key that is valid but not currently in `{coll}` "
+                       "(an available feature that is not enabled, a key named twice): the call fails after the annotators were already switched for the whole "
+                       "list, and the keys after it stay listed although they are inactive")
     # ---- R10.3 gated writes
     n = 0
     for a in P.annotators():
@@ -313,13 +348,7 @@ def run(P: Program, R: Report, tier: str) -> None:
         R.check(bool(tests) and all(t in good_ for t in tests), "R10.5", base, base.node,
                 "_filter_feature_keys keeps only keys in self.features", str(tests), via="provenance")
     # ---- R10.6
-    comps = [c for c in ast.walk(en.node) if isinstance(c, ast.Call) and call_name(c) == "compute"]
-    R.check(len(comps) == 1 and comps and norm(comps[0].args[0]) == en.params[1], "R10.6", en, comps[0] if comps else en.node,
-            "enable_features recomputes exactly the requested keys",
-            f"compute is called with `{norm(comps[0].args[0]) if comps and comps[0].args else '?'}`: keys that are already registered are not recomputed", via="dataflow")
-    for c in comps:
-        guards = [norm(n.test) for fld, n in enclosing(en, c) if isinstance(n, ast.If)]
-        R.check(guards == ["recompute"], "R10.6", en, c, "recomputation depends only on the recompute flag", f"guards: {guards}", via="syntax")
+    enable_recomputes_requested(P, R, "R10.6")
     # ---- R10.7
     for a in P.annotators():
         update_guards(P, R, a, "R10.7")
@@ -328,6 +357,10 @@ def run(P: Program, R: Report, tier: str) -> None:
         compute_is_memoryless(P, R, a, "R10.8")
 
     flag_frame(P, R, "R10.9")
+    # ---- R10.11 the IoU write kernel writes every edge it is handed (no early exit past the catch-all loop)
+    from .annot import total_write
+
+    total_write(P, R, P.class_named("EdgeAnnotator"), "R10.11")
 
 def flag_frame(P: Program, R: Report, rule: str) -> None:
     """activate_features(keys) / deactivate_features(keys) change the inclusion flag of the given keys ONLY: every
